@@ -5,6 +5,7 @@ package sim
 import (
 	"fmt"
 	"os"
+	"sync/atomic"
 )
 
 // splitmix64 PRNG (public domain algorithm).
@@ -138,3 +139,13 @@ func (t *Tape) Pick(weights ...int) int {
 
 // Seed draws a 31-bit sub-seed (for bulk data generated off-tape).
 func (t *Tape) Seed() uint64 { return uint64(t.Intn(1 << 31)) }
+
+// Heartbeat is called by a property between the independent executions of one
+// case (variants, cuts, ranges): the worker's CPU watchdog bounds each execution,
+// not their sum. It is a counter read by the watchdog goroutine.
+var heartbeat atomic.Int64
+
+func Heartbeat() { heartbeat.Add(1) }
+
+// Heartbeats returns the number of heartbeats so far.
+func Heartbeats() int64 { return heartbeat.Load() }
